@@ -49,6 +49,16 @@ impl Interval {
         }
     }
 
+    /// Creates an interval from its three fields: months, days and milliseconds.
+    pub const fn from_mdms(months: i32, days: i32, ms: i32) -> Self {
+        Interval { months, days, ms }
+    }
+
+    /// The sub-day part of the interval in milliseconds.
+    pub const fn millis(&self) -> i32 {
+        self.ms
+    }
+
     pub const fn from_secs(seconds: i32) -> Self {
         Interval {
             months: 0,
